@@ -98,6 +98,11 @@ Definition lost_rw (r : rw) (l : loop) : list window :=
   | _ => []
   end.
 
+(* executable guard of the known finding rewrite-drops-own-measurements: the rewritten loop has no own windows to lose
+   (lost_rw is empty exactly when the unrolled loop carries no window, or is repeated 0 times [unroll] / at most once
+   [unroll_children]) *)
+Definition guard_C02_rewrite_drops_own_measurements (r : rw) (l : loop) : bool := is_nil (lost_rw r l).
+
 (* ---- rewrites anywhere in the tree, and sequences of them (what flatten_and_balance / cleanup are made of) ------------- *)
 Fixpoint apply_at (path : list nat) (r : rw) (l : loop) {struct path} : option loop :=
   match path with
